@@ -18,6 +18,8 @@ import (
 	"strings"
 
 	"github.com/quay/claircore"
+	"github.com/quay/claircore/pkg/pep440"
+	tktypes "github.com/quay/claircore/toolkit/types"
 	"github.com/quay/claircore/verifharness/internal/hx"
 )
 
@@ -259,6 +261,7 @@ func Run(cfg hx.Config) error {
 	}
 	genericRun(r, rnd, cfg.N(3000, 100000))
 	pepExtra(r, rnd, cfg.N(3000, 100000))
+	pepRanges(r, rnd, cfg.N(3000, 100000))
 	projections(r, rnd, cfg.N(4000, 120000))
 
 	r.Notes["schemes"] = []string{"claircore.Version", "pkg/pep440", "ruby (gem)", "java (maven)", "pkg/rhctag", "go-rpm-version", "FromSemver"}
@@ -367,12 +370,129 @@ func genericRun(r *hx.Run, rnd *hx.Rand, n int) {
 		}
 		x := vs[i%3]
 		r.Op("gstr "+gline(&x), hx.Guard(func() string { return hexs(x.String()) }), true)
+		// the copy in toolkit/types (same protocol lines, same model)
+		if i%4 == 0 {
+			toolkitCopy(r, vs)
+		}
 	}
 	var nilRange *claircore.Range
 	v := claircore.Version{}
 	if nilRange.Contains(&v) {
 		r.Fail("", "generic nil range contains a version")
 	}
+}
+
+// pepRanges: pkg/pep440/range.go — ParseRange and Range.Match against the
+// model, and the half-open statement on the implementation: a range written
+// ">=a,<b" matches exactly the versions v with a <= v < b.
+func pepRanges(r *hx.Run, rnd *hx.Rand, n int) {
+	ops := []string{"==", "!=", "<=", ">=", "<", ">", "~=", ">=", "<", "", "===", "=", "~", "=>"}
+	for i := 0; i < n && !r.Stop(); i++ {
+		f := newFamily(rnd)
+		// plain versions mostly: the epoch separator '!' is read as an operator character
+		ver := func() string {
+			s := f.pep()
+			if rnd.Chance(4, 5) {
+				s = strings.NewReplacer("!", "", "~", "", "=", "", "<", "", ">", "", ",", "").Replace(s)
+			}
+			return s
+		}
+		sp := func() string { return f.pick("", "", "", " ", "  ", "\t") }
+		var spec string
+		a, b := ver(), ver()
+		halfOpen := false
+		switch rnd.Intn(4) {
+		case 0:
+			spec = sp() + ">=" + sp() + a + sp() + "," + sp() + "<" + sp() + b + sp()
+			halfOpen = true
+		case 1:
+			spec = ops[rnd.Intn(len(ops))] + sp() + a
+		case 2:
+			spec = ops[rnd.Intn(len(ops))] + a + "," + ops[rnd.Intn(len(ops))] + sp() + b
+		default:
+			spec = f.pick("~=", "~= ", "~=") + a
+		}
+		if rnd.Chance(1, 30) {
+			spec += f.pick(",", ",,", " ", ">")
+			halfOpen = false
+		}
+		vt := ver()
+		if rnd.Chance(1, 3) {
+			vt = f.mutate(a, "pep440")
+		}
+		var rg pep440.Range
+		var pv pepV
+		out := hx.Guard(func() string {
+			var err error
+			rg, err = pep440.ParseRange(spec)
+			if err != nil {
+				return "err"
+			}
+			pv, _ = pepParse(vt)
+			if !pv.ok {
+				return "verr"
+			}
+			return strconv.FormatBool(rg.Match(&pv.v))
+		})
+		r.Op("peprange "+hexs(spec)+" "+hexs(vt), out, out == "true" || out == "false")
+		r.Count("pep440:range:" + out)
+		if out == "panic" {
+			r.Fail("", fmt.Sprintf("pep440 range panics spec=%s version=%s", q(spec), q(vt)))
+			continue
+		}
+		if halfOpen && (out == "true" || out == "false") && len(rg) == 2 {
+			lo, hi := rg[0].V, rg[1].V
+			want := lo.Compare(&pv.v) <= 0 && pv.v.Compare(&hi) < 0
+			r.Case("pep440 half-open "+q(spec)+" "+q(vt), true)
+			if out != strconv.FormatBool(want) {
+				r.Fail("", fmt.Sprintf("pep440 range-membership spec=%s version=%s match=%s want=%v", q(spec), q(vt), out, want))
+			}
+		}
+	}
+	// the repaired panic: "~=" with one release segment
+	out := hx.Guard(func() string {
+		if _, err := pep440.ParseRange("~=1"); err != nil {
+			return "err"
+		}
+		return "ok"
+	})
+	r.Op("peprange "+hexs("~=1")+" "+hexs("1"), out, false)
+	if out != "err" {
+		r.Fail("", "pep440 ParseRange(\"~=1\") = "+out+", want an error")
+	}
+}
+
+// toolkitCopy drives toolkit/types.Version / Range, the copy of the root
+// package's types, on one triple.
+func toolkitCopy(r *hx.Run, vs [3]claircore.Version) {
+	var ts [3]tktypes.Version
+	for i, v := range vs {
+		ts[i] = tktypes.Version{Kind: v.Kind, V: v.V}
+	}
+	for i := 0; i < 3; i++ {
+		for j := 0; j < 3; j++ {
+			if i == j {
+				continue
+			}
+			x, y := ts[i], ts[j]
+			c := cmpGuard(func() int { return sgn(x.Compare(&y)) })
+			r.Op("gcmp "+gline(&vs[i])+" "+gline(&vs[j]), cmpStr(c), true)
+			a, b := vs[i], vs[j]
+			if want := sgn(a.Compare(&b)); c != want {
+				r.Fail("", fmt.Sprintf("toolkit/types.Version.Compare differs from claircore.Version.Compare on %v %v: %d vs %d", a, b, c, want))
+			}
+		}
+	}
+	lo, hi, v := ts[0], ts[1], ts[2]
+	rg := tktypes.Range{Lower: lo, Upper: hi}
+	got := hx.Guard(func() string { return strconv.FormatBool(rg.Contains(&v)) })
+	r.Op("gcon "+gline(&vs[0])+" "+gline(&vs[1])+" "+gline(&vs[2]), got, true)
+	want := lo.Compare(&v) != 1 && v.Compare(&hi) == -1
+	if got != strconv.FormatBool(want) {
+		r.Fail("", fmt.Sprintf("toolkit range-membership lower=%v upper=%v v=%v contains=%s want=%v", lo, hi, v, got, want))
+	}
+	r.Op("gstr "+gline(&vs[2]), hx.Guard(func() string { return hexs(v.String()) }), true)
+	r.Count("generic:toolkit-copy")
 }
 
 // pepExtra: print-parse on the implementation, single parses of a wider
